@@ -31,8 +31,8 @@ ALL_KINDS = CALL_KINDS | REG_KINDS | EVENT_KINDS | CHAN_KINDS | LST_KINDS
 PROPS = {
     "C02": dict(profiles=[("calls", False, 4), ("calls", True, 8), ("mixed", False, 4)], alphabet=CALL_KINDS, mc=["MC_Calls", "MC_CallsP", "MC_CallsP2"]),
     "C03": dict(profiles=[("registry", False, 4), ("registry", True, 8), ("mixed", False, 4)], alphabet=REG_KINDS, mc=["MC_Registry"]),
-    "C04": dict(profiles=[("events", False, 4), ("events", True, 8), ("mixed", False, 4)], alphabet=EVENT_KINDS, mc=["MC_Events"]),
-    "C05": dict(profiles=[("channels", False, 4), ("channels", True, 8), ("mixed", False, 4)], alphabet=CHAN_KINDS, mc=["MC_Channels"]),
+    "C04": dict(profiles=[("events", False, 4), ("events", True, 8), ("mixed", False, 4)], alphabet=EVENT_KINDS, mc=["MC_Events", "MC_Events_sub", "MC_Events_suball"]),
+    "C05": dict(profiles=[("channels", False, 4), ("channels", True, 8), ("mixed", False, 4)], alphabet=CHAN_KINDS, mc=["MC_Channels", "MC_ChannelsE1", "MC_ChannelsE5", "MC_ChannelsEM"]),
     "C09": dict(profiles=[("mixed", True, 14), ("channels", True, 14), ("calls", True, 14), ("intro", False, 10), ("mixed", False, 10)], alphabet=ALL_KINDS, mc=["MC_Lifecycle"]),
     "C10": dict(profiles=[("listeners", False, 4), ("listeners", True, 8), ("mixed", False, 4)], alphabet=LST_KINDS, mc=["MC_Listeners", "MC_ListenersF"]),
     "C11": dict(profiles=[("abuse", False, 5), ("mixed", False, 6), ("calls", False, 5), ("intro", False, 5), ("channels", False, 5)], alphabet=ALL_KINDS, mc=["MC_Abuse", "MC_Intro"]),
@@ -108,8 +108,10 @@ def fuzz_and_validate(prop, tier, seed, verdict, cov):
 
 
 # specification -> implementation: behaviours enumerated by TLC from MC_Replay.tla, replayed on the real broker
-REPLAY = {"C02": ["Calls", "CallsP", "CallsP2"], "C03": ["Registry"], "C04": ["Events"], "C05": ["Channels"], "C09": ["Lifecycle", "Versions"],
+REPLAY = {"C02": ["Calls", "CallsP", "CallsP2"], "C03": ["Registry"], "C04": ["Events", "Events_sub", "Events_suball"], "C05": ["Channels", "ChannelsE1", "ChannelsE5", "ChannelsEM"], "C09": ["Lifecycle", "Versions"],
           "C10": ["Listeners", "ListenersF"], "C11": ["Abuse", "CallsP", "Intro", "Channels"], "C12": ["Versions", "CallsP_old"]}
+# the quick tier replays a seed-dependent sample of the configurations that start from a scripted deeper state (all of them in the thorough tier)
+QUICK_CAP = {"ChannelsE1": 450, "ChannelsE5": 450, "ChannelsEM": 450, "Events_sub": 500, "Events_suball": 500}
 REPLAY_TIERS = {
     "quick": dict(exhaustive_cap=1500, sim=(250, 150), shards=4, workers=8, timeout=900),
     "thorough": dict(exhaustive_cap=24000, sim=(3000, 200), shards=12, workers=12, timeout=3000),
@@ -153,7 +155,8 @@ def spec_replay(prop, tier, seed, verdict, cov):
     for nm in names:
         ex = _exhaustive_behaviours(nm, wd, rt)
         all_ex = ex["behaviours"]
-        stride = max(1, (len(all_ex) + rt["exhaustive_cap"] - 1) // rt["exhaustive_cap"])
+        cap = QUICK_CAP.get(nm, rt["exhaustive_cap"]) if tier == "quick" else rt["exhaustive_cap"]
+        stride = max(1, (len(all_ex) + cap - 1) // cap)
         part = all_ex[(seed - 1) % stride::stride]
         chosen += part
         exhaustive.append(dict(config=f"R_{nm}.cfg", behaviours=len(all_ex), states=ex["states"], complete=ex["complete"], wall_s=ex["wall_s"],
